@@ -100,7 +100,10 @@ func runC06(o *Out) {
 	// join reduction never changes the denoted bases
 	pl := pool(8)
 	pl = append(pl, gts.Range(4, 6), gts.Point(6), gts.Between(6), gts.PartialRange(6, 8, gts.Partial5), gts.Range(2, 4),
-		gts.Join(gts.Range(0, 1), gts.Range(2, 3)), gts.Order(gts.Point(1), gts.Point(5)))
+		gts.Join(gts.Range(0, 1), gts.Range(2, 3)), gts.Order(gts.Point(1), gts.Point(5)),
+		// complemented multi-part locations as parts (folded with a neighbouring complemented part)
+		gts.Complemented{Location: gts.Join(gts.Range(0, 2), gts.Range(4, 5))}, gts.Complemented{Location: gts.Join(gts.Range(4, 6), gts.Range(0, 1), gts.Point(2))},
+		gts.Complemented{Location: gts.Order(gts.Range(0, 2), gts.Point(5))})
 	cj := 0
 	for _, a := range pl {
 		for _, b := range pl {
@@ -211,6 +214,10 @@ func checkJoin(o *Out, parts []gts.Location) {
 		} else {
 			o.Violate("join-not-idempotent", line, fmt.Sprintf("%s then %s: the printed form of the first does not parse back to it", locSx(j), locSx(again)))
 		}
+	}
+	// what Join returns prints to a text that reads back as the same value
+	if locSx(again) == locSx(j) {
+		checkPrintParse(o, j)
 	}
 	ord := gts.Order(parts...)
 	if !denEq(want, den(ord)) {
